@@ -161,6 +161,7 @@ func genScen(prop string, seed uint64, idx int) scen {
 	sc := scen{Idx: idx, Prop: prop, Procs: vh.Pick(r, []int{1, 2, 4, 16}), Yield: vh.Pick(r, []int{0, 20, 60}),
 		SutServer: r.Bool(), React: r.Chance(60), Reason: r.Bool(), Code: 1000, rseed: r.Next()}
 	sc.Serial = r.Chance(25)
+	sc.TimeoutErr = r.Chance(35)
 	// fixed witnesses first, independent of the seed
 	if w := witnesses(prop); idx < len(w) {
 		s := w[idx]
@@ -295,6 +296,7 @@ func witnesses(prop string) []scen {
 	return []scen{
 		// a failing write: the connection is marked closed before close() runs
 		{Kind: kWriteFault, Writers: 1, Per: 1, K: 1, At: 0, Procs: 4, React: true, Witness: "write_error_never_closes_transport"},
+		{Kind: kWriteFault, Writers: 1, Per: 2, K: 2, At: 0, Procs: 2, React: true, Incoming: 1, TimeoutErr: true, Witness: "write_error_never_closes_transport"},
 		{Kind: kWriteFault, Writers: 1, Per: 3, K: 2, At: 0, Procs: 4, React: false, Incoming: 2, Witness: "write_error_never_closes_transport"},
 		{Kind: kWriteFault, Writers: 2, Per: 2, K: 3, At: 0, Procs: 1, React: true, Incoming: 1, Witness: "write_error_never_closes_transport"},
 		{Kind: kSlowFail, Writers: 1, Per: 1, K: 1, At: 0, Procs: 4, React: true, Witness: "write_error_never_closes_transport"},
@@ -348,7 +350,7 @@ func emit(w *vh.Writer, sc scen, r result) {
 		nontrivial = closingHappened && inflight
 	}
 	key := fmt.Sprintf("%s|%v|%v|%d|%d|%d|%d|%d|%d|%d|%d|%v|%v", sc.Kind, sc.Reason, sc.React, sc.Code, sc.Writers, sc.Per,
-		sc.Incoming, sc.At, sc.K, sc.Late, sc.Procs, sc.SutServer, sc.Serial)
+		sc.Incoming, sc.At, sc.K, sc.Late, sc.Procs, sc.SutServer, sc.Serial) + fmt.Sprint("|", sc.TimeoutErr)
 	kind := sc.Kind
 	if sc.Witness != "" {
 		kind = "witness:" + sc.Witness
